@@ -194,7 +194,7 @@ a2("a2_insert_with_p2", V + "2 entries; " + U, "IdRanges<M>::insert_with", TH, T
 a2("a2_remove_p1", V + "1 entry; " + U, "IdRanges<M>::remove", Q, True)                        # 10 s
 a2("a2_remove_p2", V + "2 entries; " + U, "IdRanges<M>::remove", Q, True)                      # 23 s
 a2("a2_merge_p1_q1", V + "1 x 1; " + U, "IdRanges<M>::merge", Q, True)                         # 49 s
-a2("a2_merge_p2_q1", V + "2 x 1; " + U, "IdRanges<M>::merge", TH, True, 2400)                  # 184 s
+a2("a2_merge_p2_q1", V + "2 x 1; " + U, "IdRanges<M>::merge", Q, True, 1200)                   # 184-260 s
 a2("a2_exclude_p1_q1", V + "1 x 1; " + U, "IdRanges<M>::exclude", Q, True)                     # 31 s
 a2("a2_exclude_p2_q1", V + "2 x 1; " + U, "IdRanges<M>::exclude", Q, True)                     # 36 s
 a2("a2_intersect_p1_q1", V + "1 x 1; " + U, "IdRanges<M>::intersect", Q, True)                 # 41 s
